@@ -25,6 +25,12 @@
 (*                  second surrogate discount.                                          *)
 (*       explicit   1: the state list holds every state; 0: it is inferred (Reach), and  *)
 (*                  msdm drops the successors of absorbing states that are not listed    *)
+(*       sibofs     1: the next record of the batch is the same MDP with another discount  *)
+(*                  (its "sibling").  The same policy object is then also evaluated on    *)
+(*                  the MDP as it is after its discount was changed to the sibling's      *)
+(*                  (round 3: the same MDP object mutated in place, or a fresh short-     *)
+(*                  lived MDP object) and after it was changed back (round 4); the        *)
+(*                  answer at every call is the oracle of the MDP as it is at that call.  *)
 (*       hist, sp, ap   hist = 1: the same policy OBJECT is evaluated a second time, on  *)
 (*                  a second presentation of the MDP whose state list / action list are  *)
 (*                  permuted by sp / ap (round 2 of the machine, started by Reuse with   *)
@@ -228,8 +234,9 @@ Dot0(m, v) ==
 
 \* ------------------------------------------------------------------ machine
 \* the MDP / policy as presented to the current evaluation (round 2: permuted lists)
-CM == IF round = 1 THEN M ELSE Present(M, M.sp, M.ap)
-CW == IF round = 1 THEN w ELSE PresentW(M, w, M.sp, M.ap)
+Sib == Batch[iid + 1]
+CM == IF round = 2 THEN Present(M, M.sp, M.ap) ELSE IF round = 3 THEN Sib ELSE M
+CW == IF round = 2 THEN PresentW(M, w, M.sp, M.ap) ELSE w
 
 Init ==
   /\ iid \in 1..Len(Batch)
@@ -245,8 +252,9 @@ Fixed == UNCHANGED <<iid, w, tn, wa, round>>
 
 \* the ground truth of the pair (kept out of Init: TLC evaluates initial states in a single thread)
 Ground       == Step("init", "start")
-                /\ orc' = [k \in (IF RareStates(M, tn) = {} /\ M.near1 = 0 THEN {1} ELSE {1, 2}) |->
-                             Oracle(IF k = 1 THEN M ELSE AltM(M), IF k = 1 THEN w ELSE wa)]
+                /\ orc' = [k \in {1} \cup (IF RareStates(M, tn) = {} /\ M.near1 = 0 THEN {} ELSE {2})
+                                      \cup (IF M.sibofs = 1 THEN {3} ELSE {}) |->
+                             Oracle(IF k = 1 THEN M ELSE IF k = 2 THEN AltM(M) ELSE Sib, IF k = 2 THEN wa ELSE w)]
                 /\ Fixed /\ UNCHANGED <<pm, sr, mp, acc, cls, SR, V, Q, occ, ival>>
 \* policy_matrix = self._policy_matrix_on(mdp): rows in the order of mdp.state_list, columns in the
 \* order of mdp.action_list, recomputed for the MDP at hand (also Policy.to_tabular)
@@ -265,7 +273,7 @@ Chain        == Step("rewards0", "chain") /\ mp' = RawChain(CM, pm)
 MaskChain    == Step("chain", "chain0") /\ mp' = MaskRows(CM, mp, AbsAll(CM))
                 /\ Fixed /\ UNCHANGED <<orc, pm, sr, acc, cls, SR, V, Q, occ, ival>>
 \* undiscounted only: accessible = floyd_warshall(markov_process > 0) < inf
-Access       == ~Discounted(M) /\ Step("chain0", "access") /\ acc' = Accessible(CM, mp)
+Access       == ~Discounted(CM) /\ Step("chain0", "access") /\ acc' = Accessible(CM, mp)
                 /\ Fixed /\ UNCHANGED <<orc, pm, sr, mp, cls, SR, V, Q, occ, ival>>
 \* transient / recurrent / negative recurrent / accessible sets (a row sum that is 1 up to rounding is 1)
 Classes      == Step("access", "classes") /\ cls' = ClassesOf(CM, mp, sr, acc)
@@ -275,19 +283,19 @@ ZeroRecurrent == Step("classes", "chain1") /\ mp' = MaskRows(CM, mp, cls.rec)
                 /\ Fixed /\ UNCHANGED <<orc, pm, sr, acc, cls, SR, V, Q, occ, ival>>
 \* successor_representation = inv(eye - gamma * markov_process)
 Invert ==
-  /\ \/ Discounted(M) /\ Step("chain0", "inverse") /\ SR' = Inverse(CM, mp, St(CM) \ AbsAll(CM))
+  /\ \/ Discounted(CM) /\ Step("chain0", "inverse") /\ SR' = Inverse(CM, mp, St(CM) \ AbsAll(CM))
      \/ Step("chain1", "inverse") /\ SR' = Inverse(CM, mp, St(CM) \ (AbsAll(CM) \cup cls.rec))
   /\ Fixed /\ UNCHANGED <<orc, pm, sr, mp, acc, cls, V, Q, occ, ival>>
 \* state_value = einsum("sz,z->s", successor_representation, state_rewards)
 StateValue   == Step("inverse", "value") /\ V' = MatVec(CM, SR, sr)
                 /\ Fixed /\ UNCHANGED <<orc, pm, sr, mp, acc, cls, SR, Q, occ, ival>>
 \* undiscounted only: state_value[negative_recurrent_accessible_states] = -inf
-MarkNegInf   == ~Discounted(M) /\ Step("value", "value1")
+MarkNegInf   == ~Discounted(CM) /\ Step("value", "value1")
                 /\ V' = [s \in St(M) |-> IF s \in cls.negacc THEN NEG ELSE V[s]]
                 /\ Fixed /\ UNCHANGED <<orc, pm, sr, mp, acc, cls, SR, Q, occ, ival>>
 \* action_value = state_action_reward_matrix + log(action_matrix) + gamma * transition_matrix . state_value
 ActionValue ==
-  /\ \/ Discounted(M) /\ Step("value", "qvalue")
+  /\ \/ Discounted(CM) /\ Step("value", "qvalue")
      \/ Step("value1", "qvalue")
   /\ Q' = QTab(CM, V)
   /\ Fixed /\ UNCHANGED <<orc, pm, sr, mp, acc, cls, SR, V, occ, ival>>
@@ -295,12 +303,12 @@ ActionValue ==
 Occupancy    == Step("qvalue", "occ") /\ occ' = VecMat(CM, SR)
                 /\ Fixed /\ UNCHANGED <<orc, pm, sr, mp, acc, cls, SR, V, Q, ival>>
 \* undiscounted only: state_occupancy[initial_accessible_recurrent_states] = inf
-MarkPosInf   == ~Discounted(M) /\ Step("occ", "occ1")
+MarkPosInf   == ~Discounted(CM) /\ Step("occ", "occ1")
                 /\ occ' = [s \in St(M) |-> IF s \in cls.initrec THEN POS ELSE occ[s]]
                 /\ Fixed /\ UNCHANGED <<orc, pm, sr, mp, acc, cls, SR, V, Q, ival>>
 \* initial_value = state_value . initial_state_vec   (0 * -inf := 0 when undiscounted)
 InitialVal ==
-  /\ \/ Discounted(M) /\ Step("occ", "done")
+  /\ \/ Discounted(CM) /\ Step("occ", "done")
      \/ Step("occ1", "done")
   /\ ival' = Dot0(CM, V)
   /\ Fixed /\ UNCHANGED <<orc, pm, sr, mp, acc, cls, SR, V, Q, occ>>
@@ -315,10 +323,26 @@ Reuse ==
 
 \* the final state stutters; every other state must have a successor (the configuration checks deadlock,
 \* so a behaviour that stops before the last "done" is reported by TLC)
-Finished == phase = "done" /\ (round = 2 \/ M.hist = 0) /\ UNCHANGED vars
+\* the MDP's discount is changed (in place, or a new short-lived MDP object takes its place) to the sibling's;
+\* whatever the policy object remembers of earlier calls must not be used
+LastOfFirstHistory == (round = 1 /\ M.hist = 0) \/ round = 2
+Mutate ==
+  /\ phase = "done" /\ LastOfFirstHistory /\ M.sibofs = 1
+  /\ round' = 3 /\ phase' = "start"
+  /\ sr' = NONE /\ mp' = NONE /\ acc' = NONE /\ cls' = NONE /\ SR' = NONE
+  /\ V' = NONE /\ Q' = NONE /\ occ' = NONE /\ ival' = NONE
+  /\ UNCHANGED <<iid, w, tn, wa, orc, pm>>
+\* ... and changed back
+Restore ==
+  /\ phase = "done" /\ round = 3
+  /\ round' = 4 /\ phase' = "start"
+  /\ sr' = NONE /\ mp' = NONE /\ acc' = NONE /\ cls' = NONE /\ SR' = NONE
+  /\ V' = NONE /\ Q' = NONE /\ occ' = NONE /\ ival' = NONE
+  /\ UNCHANGED <<iid, w, tn, wa, orc, pm>>
+Finished == phase = "done" /\ (round = 4 \/ (LastOfFirstHistory /\ M.sibofs = 0)) /\ UNCHANGED vars
 Next == \/ Ground \/ Tabulate \/ StateRewards \/ MaskRewards \/ Chain \/ MaskChain \/ Access \/ Classes
         \/ ZeroRecurrent \/ Invert \/ StateValue \/ MarkNegInf \/ ActionValue \/ Occupancy
-        \/ MarkPosInf \/ InitialVal \/ Reuse \/ Finished
+        \/ MarkPosInf \/ InitialVal \/ Reuse \/ Mutate \/ Restore \/ Finished
 Spec == Init /\ [][Next]_vars
 
 \* ------------------------------------------------------------------ emission (pipeline A)
@@ -406,6 +430,10 @@ InstanceOK == phase = "init" =>
   /\ FlagsOK(M, w, tn)
   /\ M.near1 = 1 => (Discounted(M) /\ Discounted(AltM(M)))
   /\ M.hist = 1 => M.explicit = 1
+  /\ M.sibofs = 1 => /\ iid < Len(Batch) /\ M.near1 = 0 /\ Sib.sibofs = 0
+                      /\ Sib.N = M.N /\ Sib.K = M.K /\ Sib.PD = M.PD /\ Sib.ID = M.ID /\ Sib.explicit = M.explicit
+                      /\ Sib.abs = M.abs /\ Sib.avail = M.avail /\ Sib.P = M.P /\ Sib.R = M.R /\ Sib.p0 = M.p0
+                      /\ Sib.gw = M.gw /\ <<Sib.GN, Sib.GD>> # <<M.GN, M.GD>>
   /\ IsPerm(M.sp, M.N) /\ IsPerm(M.ap, M.K)
   /\ DeadEnd(M) = {}
   /\ Discounted(M) \/ \A s \in St(M) : \A a \in Avail(M, s) : \A t \in St(M) : M.P[s][a][t] > 0 => M.R[s][a][t] <= 0
@@ -432,8 +460,12 @@ RareWeightsIrrelevantWhereExact ==
 \* (P9) history independence: the second evaluation by the same policy object, on the permuted
 \*      presentation, ends in the (permuted) oracle values as a fresh evaluation does
 ReuseMatchesFresh ==
-  (phase = "done" /\ round = 2) =>
-    /\ \A i \in St(M) : V[i] = orc[1].v[M.sp[i]] /\ occ[i] = orc[1].occ[M.sp[i]]
-    /\ ival = orc[1].init
-    /\ \A i \in St(M) : M.abs[M.sp[i]] = 0 => \A j \in Ac(M) : Q[i][j] = orc[1].q[M.sp[i]][M.ap[j]]
+  /\ (phase = "done" /\ round = 2) =>
+       /\ \A i \in St(M) : V[i] = orc[1].v[M.sp[i]] /\ occ[i] = orc[1].occ[M.sp[i]]
+       /\ ival = orc[1].init
+       /\ \A i \in St(M) : M.abs[M.sp[i]] = 0 => \A j \in Ac(M) : Q[i][j] = orc[1].q[M.sp[i]][M.ap[j]]
+  /\ (phase = "done" /\ round \in {3, 4}) =>
+       LET o == orc[IF round = 3 THEN 3 ELSE 1] IN
+       /\ V = o.v /\ occ = o.occ /\ ival = o.init
+       /\ \A s \in NonAbs(M) : \A a \in Ac(M) : Q[s][a] = o.q[s][a]
 =============================================================================
